@@ -41,7 +41,7 @@ package signaling_rpc_server
 // peer's ID, and only when the message's epoch equals the session's; a newer epoch is an error.
 //@ func (*Server).Session$2
 //@   noframe
-//@   cs Server.mtx ensures forall t *sessionTracker trigger t.seqno :: old(isobj(t)) && t.seqno != old(t.seqno) ==> (t.peerA != nil ==> t.peerA.recv == nil && t.peerA.recvSent == nil) && (t.peerB != nil ==> t.peerB.recv == nil && t.peerB.recvSent == nil)
+//@   cs Server.mtx ensures forall t *sessionTracker trigger t.seqno :: old(isobj(t)) && t.seqno != old(t.seqno) ==> (t.peerA != nil ==> t.peerA.recv == nil && t.peerA.recvSent == nil && t.peerA.recvClear == nil && t.peerA.outAcked == nil) && (t.peerB != nil ==> t.peerB.recv == nil && t.peerB.recvSent == nil && t.peerB.recvClear == nil && t.peerB.outAcked == nil)
 //@   cs Server.mtx ensures forall t *sessionTracker trigger t.wait :: old(isobj(t)) && (t.seqno != old(t.seqno) || t.peerA != old(t.peerA) || t.peerB != old(t.peerB) || t.wait != old(t.wait)) ==> old(t.wait) == nil || chanClosed[old(t.wait)]
 //@   requires isobj(s) && isobj(sess) && isobj(ourPeerTkr)
 //@   requires sendMsg == nil || (isobj(sendMsg) && (sendMsg.SignedMsg == nil || isobj(sendMsg.SignedMsg)))
@@ -58,7 +58,7 @@ package signaling_rpc_server
 // that number. No pending message is touched.
 //@ func (*Server).Session$3
 //@   noframe
-//@   cs Server.mtx ensures forall t *sessionTracker trigger t.seqno :: old(isobj(t)) && t.seqno != old(t.seqno) ==> (t.peerA != nil ==> t.peerA.recv == nil && t.peerA.recvSent == nil) && (t.peerB != nil ==> t.peerB.recv == nil && t.peerB.recvSent == nil)
+//@   cs Server.mtx ensures forall t *sessionTracker trigger t.seqno :: old(isobj(t)) && t.seqno != old(t.seqno) ==> (t.peerA != nil ==> t.peerA.recv == nil && t.peerA.recvSent == nil && t.peerA.recvClear == nil && t.peerA.outAcked == nil) && (t.peerB != nil ==> t.peerB.recv == nil && t.peerB.recvSent == nil && t.peerB.recvClear == nil && t.peerB.outAcked == nil)
 //@   cs Server.mtx ensures forall t *sessionTracker trigger t.wait :: old(isobj(t)) && (t.seqno != old(t.seqno) || t.peerA != old(t.peerA) || t.peerB != old(t.peerB) || t.wait != old(t.wait)) ==> old(t.wait) == nil || chanClosed[old(t.wait)]
 //@   requires isobj(s) && isobj(sess) && isobj(ourPeerTkr)
 //@   cs Server.mtx ensures forall t *sessionPeerTracker trigger t.recv :: old(isobj(t)) ==> t.recv == old(t.recv) && t.recvClear == old(t.recvClear)
@@ -71,7 +71,7 @@ package signaling_rpc_server
 // number; a transmission record is turned into a clear notice only if it names exactly that number.
 //@ func (*Server).Session$4
 //@   noframe
-//@   cs Server.mtx ensures forall t *sessionTracker trigger t.seqno :: old(isobj(t)) && t.seqno != old(t.seqno) ==> (t.peerA != nil ==> t.peerA.recv == nil && t.peerA.recvSent == nil) && (t.peerB != nil ==> t.peerB.recv == nil && t.peerB.recvSent == nil)
+//@   cs Server.mtx ensures forall t *sessionTracker trigger t.seqno :: old(isobj(t)) && t.seqno != old(t.seqno) ==> (t.peerA != nil ==> t.peerA.recv == nil && t.peerA.recvSent == nil && t.peerA.recvClear == nil && t.peerA.outAcked == nil) && (t.peerB != nil ==> t.peerB.recv == nil && t.peerB.recvSent == nil && t.peerB.recvClear == nil && t.peerB.outAcked == nil)
 //@   cs Server.mtx ensures forall t *sessionTracker trigger t.wait :: old(isobj(t)) && (t.seqno != old(t.seqno) || t.peerA != old(t.peerA) || t.peerB != old(t.peerB) || t.wait != old(t.wait)) ==> old(t.wait) == nil || chanClosed[old(t.wait)]
 //@   requires isobj(s) && isobj(sess) && isobj(ourPeerTkr)
 //@   cs Server.mtx ensures forall t *sessionPeerTracker trigger t.recv :: old(isobj(t)) && t.recv != old(t.recv) ==> t.recv == nil && old(t.recv) != nil && old(t.recv.Seqno) == clear && msgSessionSeqno == old(sess.seqno)
@@ -169,9 +169,10 @@ package signaling_rpc_server
 //@   noframe
 //@   nosweep nil-deref
 //@   requires isobj(s)
-// No message crosses an epoch: whenever a section changes a session's epoch, no attached end is left
-// with a pending or in-flight message.
-//@   cs Server.mtx ensures forall t *sessionTracker trigger t.seqno :: old(isobj(t)) && t.seqno != old(t.seqno) ==> (t.peerA != nil ==> t.peerA.recv == nil && t.peerA.recvSent == nil) && (t.peerB != nil ==> t.peerB.recv == nil && t.peerB.recvSent == nil)
+// Nothing crosses an epoch: whenever a section changes a session's epoch, no attached end is left
+// with a pending or in-flight message, nor with an acknowledgement or a clear still to be relayed
+// (C21: acknowledgements and clears affect the message they name, in the session they were made in).
+//@   cs Server.mtx ensures forall t *sessionTracker trigger t.seqno :: old(isobj(t)) && t.seqno != old(t.seqno) ==> (t.peerA != nil ==> t.peerA.recv == nil && t.peerA.recvSent == nil && t.peerA.recvClear == nil && t.peerA.outAcked == nil) && (t.peerB != nil ==> t.peerB.recv == nil && t.peerB.recvSent == nil && t.peerB.recvClear == nil && t.peerB.outAcked == nil)
 //@   cs Server.mtx#1 ensures (sessKey in self.sessions) && self.sessions[sessKey] == sess && (localIsPeerA ==> sess.peerA == ourPeerTkr) && (!localIsPeerA ==> sess.peerB == ourPeerTkr)
 //@   cs Server.mtx#1 ensures ourPeerTkr.recv == nil && ourPeerTkr.recvSent == nil && ourPeerTkr.recvClear == nil && ourPeerTkr.outAcked == nil
 //@   cs Server.mtx#1 ensures (dstPeerIDStr in self.peers) && self.peers[dstPeerIDStr] == dstPeer && (srcPeerIDStr in dstPeer.wantPeers)
@@ -200,7 +201,7 @@ package signaling_rpc_server
 // keys and other peers' entries are never touched.
 //@ func (*Server).Session$1
 //@   noframe
-//@   cs Server.mtx ensures forall t *sessionTracker trigger t.seqno :: old(isobj(t)) && t.seqno != old(t.seqno) ==> (t.peerA != nil ==> t.peerA.recv == nil && t.peerA.recvSent == nil) && (t.peerB != nil ==> t.peerB.recv == nil && t.peerB.recvSent == nil)
+//@   cs Server.mtx ensures forall t *sessionTracker trigger t.seqno :: old(isobj(t)) && t.seqno != old(t.seqno) ==> (t.peerA != nil ==> t.peerA.recv == nil && t.peerA.recvSent == nil && t.peerA.recvClear == nil && t.peerA.outAcked == nil) && (t.peerB != nil ==> t.peerB.recv == nil && t.peerB.recvSent == nil && t.peerB.recvClear == nil && t.peerB.outAcked == nil)
 //@   nosweep nil-deref
 //@   requires isobj(s) && isobj(sess) && isobj(ourPeerTkr) && isobj(dstPeer)
 //@   cs Server.mtx ensures forall t *sessionTracker trigger t.wait :: old(isobj(t)) && (t.seqno != old(t.seqno) || t.peerA != old(t.peerA) || t.peerB != old(t.peerB) || t.wait != old(t.wait)) ==> old(t.wait) == nil || chanClosed[old(t.wait)]
@@ -209,8 +210,8 @@ package signaling_rpc_server
 //@   cs Server.mtx ensures forall t *sessionTracker trigger t.peerB :: old(isobj(t)) && t != sess ==> t.peerB == old(t.peerB)
 //@   cs Server.mtx ensures old((localIsPeerA && sess.peerA == ourPeerTkr) || (!localIsPeerA && sess.peerB == ourPeerTkr)) ==> sess.seqno != old(sess.seqno) && (old(sess.seqno) < 18446744073709551615 ==> sess.seqno == old(sess.seqno) + 1) && (localIsPeerA ==> sess.peerA == nil && sess.peerB == old(sess.peerB)) && (!localIsPeerA ==> sess.peerB == nil && sess.peerA == old(sess.peerA))
 //@   cs Server.mtx ensures !old((localIsPeerA && sess.peerA == ourPeerTkr) || (!localIsPeerA && sess.peerB == ourPeerTkr)) ==> sess.seqno == old(sess.seqno) && sess.peerA == old(sess.peerA) && sess.peerB == old(sess.peerB)
-//@   cs Server.mtx ensures forall t *sessionPeerTracker trigger t.recv :: old(isobj(t)) ==> t.recvClear == old(t.recvClear) && t.outAcked == old(t.outAcked) && (t.recv == old(t.recv) || t.recv == nil) && (t.recvSent == old(t.recvSent) || t.recvSent == nil)
-//@   cs Server.mtx ensures forall t *sessionPeerTracker trigger t.recv :: old(isobj(t)) && (t.recv != old(t.recv) || t.recvSent != old(t.recvSent)) ==> old((localIsPeerA && sess.peerA == ourPeerTkr && sess.peerB == t) || (!localIsPeerA && sess.peerB == ourPeerTkr && sess.peerA == t))
+//@   cs Server.mtx ensures forall t *sessionPeerTracker trigger t.recv :: old(isobj(t)) ==> (t.recvClear == old(t.recvClear) || t.recvClear == nil) && (t.outAcked == old(t.outAcked) || t.outAcked == nil) && (t.recv == old(t.recv) || t.recv == nil) && (t.recvSent == old(t.recvSent) || t.recvSent == nil)
+//@   cs Server.mtx ensures forall t *sessionPeerTracker trigger t.recv :: old(isobj(t)) && (t.recv != old(t.recv) || t.recvSent != old(t.recvSent) || t.recvClear != old(t.recvClear) || t.outAcked != old(t.outAcked)) ==> old((localIsPeerA && sess.peerA == ourPeerTkr && sess.peerB == t) || (!localIsPeerA && sess.peerB == ourPeerTkr && sess.peerA == t))
 //@   cs Server.mtx ensures old((localIsPeerA && sess.peerA == ourPeerTkr) || (!localIsPeerA && sess.peerB == ourPeerTkr)) ==> !(srcPeerIDStr in dstPeer.wantPeers)
 //@   cs Server.mtx ensures forall k sessionKey trigger dom(self.sessions, k) :: k != sessKey ==> ((k in self.sessions) <==> old(k in self.sessions)) && self.sessions[k] == old(self.sessions[k])
 //@   cs Server.mtx ensures forall p string trigger dom(self.peers, p) :: p != dstPeerIDStr ==> ((p in self.peers) <==> old(p in self.peers)) && self.peers[p] == old(self.peers[p])
